@@ -18,7 +18,8 @@ def gen_cases(ctx, n):
     cases = []
     for i in range(n):
         prof = ["mixed", "windows", "assign", "dag", "flat", "mixed", "windows"][i % 7]
-        c = mc.gen_history(ctx.rng, prof, nops=ctx.rng.randint(10, 24) if prof == "windows" else None)
+        c = mc.gen_history(ctx.rng, prof, nops=ctx.rng.randint(10, 24) if prof == "windows" else None,
+                           values="mixed" if i % 6 == 5 else "int")      # 1 in 6 over mixed value types (oracles only)
         lv = mc.leaves_of(c)
         fol = [[ctx.rng.choice(lv), ctx.rng.randint(-9, 9)] for _ in range(3)]
         c["ops"].append(["freshcheck", lv, fol])
